@@ -789,7 +789,12 @@ Section WithHash.
         match get_tm w tma with
         | Some t =>
             match o with
-            | TDeployToken _ _ _ _ | TIssueCallback _ _ => (w, ifail)
+            | TIssueCallback _ _ => (w, ifail)
+            | TDeployToken _ _ _ _ =>
+              (* the manager's minter may retry a failed issuance itself: the issuance becomes pending work *)
+              let '(t', l', out) := tstep t (iw_led w) o in
+              let w1 := w_led_ (w_tm w tma t') l' in
+              ((if to_ok out then w_push w1 (PIssue tma) else w1), {| io_ok := to_ok out; io_rets := to_rets out; io_logs := [] |})
             | _ =>
               let '(t', l', out) := tstep t (iw_led w) o in
               (w_led_ (w_tm w tma t') l', {| io_ok := to_ok out; io_rets := to_rets out; io_logs := [] |})
